@@ -3,13 +3,15 @@
 Proved (lean/Props/C08.lean over lean/TlsModel/ErrPath.lean): the "try again" loops of
 _getMsg/_getNextRecord make progress on every iteration and do linear work; every modelled error
 kind ends in (fatal alert of the tabled description first, closed, not resumable, documented
-exception family); the semantic ClientHello/ServerHello check sequences never reach an unrelated
-Python exception (partial: the duplicated-extension escape is spelled out); a CompressedCertificate
-is accepted only if the output length equals the declared length <= 2^24.
+exception family); the semantic ClientHello/ServerHello check sequences end in an alert or pass for
+EVERY combination of the modelled hello features (full strength since the fix: commits; the former
+escapes are regression theorems); a CompressedCertificate is accepted only if the output length
+equals the declared length <= 2^24 and at most declared+1 bytes are materialised.
 
-Explored, not proved (this module): structured mutation of real flights captured from lab
-handshakes in both roles, record-level injection, post-handshake traffic; the oracle is the
-property text itself.
+Tie: five differential streams against the real code (loop, error table, ClientHello checks,
+ServerHello checks, decompression rule).  Explored, not proved (this module): structured mutation
+of real flights captured from lab handshakes in both roles, record-level injection, post-handshake
+traffic, corpus/C08 (one reproducer per defect found so far); the oracle is the property text.
 """
 import json
 import os
@@ -27,14 +29,15 @@ MANIFEST = {
             "do work linear in records+bytes; every modelled error kind (record-level and message-level exception-to-alert "
             "tables, in-line checks, received alerts, transport failures) ends with a fatal alert of the tabled description "
             "written first, the connection closed, the session not resumable and an exception of the documented family; the "
-            "semantic ClientHello and ServerHello check sequences, modelled over abstract extension features with every "
-            "Python dereference as Except, reach no unrelated Python exception (partial: a duplicated extension type escapes "
-            "as TLSInternalError without alert - counterexample theorem); compressed certificates are accepted only when the "
-            "decompressed length equals the declared length <= 2^24. Exploration (not proof): field-, length-, type- and "
+            "semantic ClientHello and ServerHello check sequences, modelled over abstract extension features (absent / present / "
+            "duplicated / without payload / empty lists / mismatching counts ...) with every Python dereference as Except, end "
+            "in an alert or pass for every feature combination (hello_checks_total, server_hello_checks_total); compressed "
+            "certificates are accepted only when the decompressed length equals the declared length <= 2^24 and never more than "
+            "declared+1 bytes are materialised. Exploration (not proof): field-, length-, type- and "
             "value-level mutations of every message and extension of real lab handshakes (SSLv3..TLS1.3, RSA/DHE/ECDHE/"
             "ECDSA/PSK/SRP/anon, client auth, resumption, HRR), malformed certificates and key shares, compressed-certificate "
             "bombs, oversized/empty/unknown/SSLv2 records, post-handshake messages; each case judged by the property text: "
-            "exception family, fatal alert on the wire first, closed, not resumable, bounded steps, tracemalloc peak.",
+            "exception family, fatal alert on the wire first, closed, not resumable, bounded steps, peak memory.",
     "note": "Residual (explored only): unmodelled statements of tlsconnection.py, X.509/ASN.1 code, key exchange arithmetic, "
             "memory and wall-clock. Model/implementation tie: differential runs of the loop model, the error table and the "
             "hello check sequences against the real TLSConnection.",
